@@ -45,6 +45,14 @@ func NewCtx(p *load.Program, tier string, run *report.Run) *Ctx {
 		}
 		return nil, nil
 	}
+	tables := readOnlyTables(p)
+	dtab.ConstTable = func(obj types.Object) (*ast.CompositeLit, *types.Info) {
+		if t, ok := tables[obj]; ok {
+			return t.lit, t.info
+		}
+		return nil, nil
+	}
+	readOnlyTable = func(obj types.Object) bool { _, ok := tables[obj]; return ok }
 	return &Ctx{P: p, Tier: tier, Run: run, cache: map[string][]*shape.Result{}}
 }
 
@@ -379,3 +387,113 @@ func retStreams(r *shape.Result) []*shape.Stream {
 }
 
 func readFile(path string) ([]byte, error) { return os.ReadFile(path) }
+
+type roTable struct {
+	lit  *ast.CompositeLit
+	info *types.Info
+}
+
+// readOnlyTable: obj is a package-level lookup table nothing in the module ever changes.
+var readOnlyTable = func(types.Object) bool { return false }
+
+// readOnlyTables finds the package-level variables of the module that are initialised with a
+// composite literal and only ever read: every mention outside the declaration is the operand of
+// an index expression that is read (not assigned, incremented or address-taken), of len, or of a
+// range. Such a variable is a constant table.
+func readOnlyTables(p *load.Program) map[types.Object]roTable {
+	cand := map[types.Object]roTable{}
+	for _, pk := range p.Pkgs {
+		for _, f := range pk.Syntax {
+			if strings.HasSuffix(p.Fset.Position(f.Pos()).Filename, "_test.go") {
+				continue
+			}
+			for _, d := range f.Decls {
+				gd, ok := d.(*ast.GenDecl)
+				if !ok || gd.Tok != token.VAR {
+					continue
+				}
+				for _, sp := range gd.Specs {
+					vs := sp.(*ast.ValueSpec)
+					if len(vs.Names) != len(vs.Values) {
+						continue
+					}
+					for i, nm := range vs.Names {
+						if lit, ok := vs.Values[i].(*ast.CompositeLit); ok {
+							if obj := pk.TypesInfo.Defs[nm]; obj != nil {
+								cand[obj] = roTable{lit, pk.TypesInfo}
+							}
+						}
+					}
+				}
+			}
+		}
+	}
+	if len(cand) == 0 {
+		return cand
+	}
+	for _, pk := range p.Pkgs {
+		info := pk.TypesInfo
+		for _, f := range pk.Syntax {
+			// test files may change a table too: they are not part of the library, but be conservative
+			par := map[ast.Node]ast.Node{}
+			var stack []ast.Node
+			ast.Inspect(f, func(n ast.Node) bool {
+				if n == nil {
+					stack = stack[:len(stack)-1]
+					return true
+				}
+				if len(stack) > 0 {
+					par[n] = stack[len(stack)-1]
+				}
+				stack = append(stack, n)
+				return true
+			})
+			ast.Inspect(f, func(n ast.Node) bool {
+				id, ok := n.(*ast.Ident)
+				if !ok {
+					return true
+				}
+				obj := info.Uses[id]
+				if _, isCand := cand[obj]; !isCand {
+					return true
+				}
+				var node ast.Node = id
+				if sel, ok := par[id].(*ast.SelectorExpr); ok && sel.Sel == id {
+					node = sel // pkg.Table
+				}
+				okUse := false
+				switch pp := par[node].(type) {
+				case *ast.IndexExpr:
+					if pp.X == node {
+						okUse = true
+						switch g := par[pp].(type) {
+						case *ast.AssignStmt:
+							for _, l := range g.Lhs {
+								if l == ast.Expr(pp) {
+									okUse = false
+								}
+							}
+						case *ast.IncDecStmt:
+							okUse = false
+						case *ast.UnaryExpr:
+							if g.Op == token.AND {
+								okUse = false
+							}
+						}
+					}
+				case *ast.RangeStmt:
+					okUse = pp.X == node
+				case *ast.CallExpr:
+					if fn, ok := pp.Fun.(*ast.Ident); ok && fn.Name == "len" && len(pp.Args) == 1 {
+						okUse = true
+					}
+				}
+				if !okUse {
+					delete(cand, obj)
+				}
+				return true
+			})
+		}
+	}
+	return cand
+}
